@@ -118,9 +118,20 @@ class Impl:
                 return {"err": "Other:" + type(e).__name__}
             return {"ok": PS.def_to_json(d)}
         if op == "attr_valid":
-            from sansldap import _filter as F
+            text = bytes.fromhex(j["hex"]).decode("utf-8")
+            # observed through the public parser: an attribute description is valid iff `(<attr>=x)` is accepted with that attribute
+            if not text or any(c in "=()*\\<>~: \x00" for c in text):
+                try:
+                    from sansldap import _filter as F
 
-            return {"ok": bool(F._ATTRIBUTE_PATTERN.match(bytes.fromhex(j["hex"]).decode("utf-8")))}
+                    return {"ok": bool(F._ATTRIBUTE_PATTERN.match(text))}
+                except AttributeError:
+                    return {"ok": False}
+            try:
+                f = sansldap.LDAPFilter.from_string("(" + text + "=x)")
+                return {"ok": getattr(f, "attribute", None) == text}
+            except C.FilterSyntaxError:
+                return {"ok": False}
         raise KeyError(op)
 
     # ------------------------------------------------------------ sessions
